@@ -311,9 +311,13 @@ def ref_pkg(sc, p):
             'lopts_private': list(p['lopts_private']) + fwd, 'req_pub': pub_names, 'req_priv': priv_names, 'specs': specs}
 
 
-def classify_pkg(p):
+def classify_pkg(p, what='any'):
+    """finding classes of the options one package declares for one kind of query (cflags: options; libs: link options;
+    static: link options and private link options)"""
     cls = set()
-    for o in p['options'] + p['lopts'] + p['lopts_private']:
+    opts = {'cflags': p['options'], 'libs': p['lopts'], 'static': p['lopts'] + p['lopts_private']}.get(
+        what, p['options'] + p['lopts'] + p['lopts_private'])
+    for o in opts:
         if '#' in o:
             cls.add('pc-option-hash')
         if '${' in o:
@@ -600,17 +604,35 @@ class SysProject:
             return self.by_name[name]['version']
         return STUBS.get(name)
 
-    def classes(self, name, seen=None):
-        """finding classes of a package: of its own options and of those of every package it requires"""
+    def classes(self, name, seen=None, what='any'):
+        """finding classes of a package: of its own options and of those of every package it requires. The findings are about
+        option texts in the Cflags / Libs fields, so with what = cflags | libs | static only the options that this query
+        prints count (of the package and of the packages the query follows, as in expect())"""
         seen = set() if seen is None else seen
         if name in seen or name not in self.by_name:
             return ()
         seen.add(name)
         p = [q for q, r in zip(pkgs_of(self.sc), self.refs) if r['name'] == name][0]
-        cls = set(classify_pkg(p))
-        for n in self.by_name[name]['specs']:
-            cls |= set(self.classes(n, seen))
+        cls = set(classify_pkg(p, what))
+        r = self.by_name[name]
+        deps = r['specs'] if what == 'any' else r['req_pub'] + (r['req_priv'] if what in ('cflags', 'static') else [])
+        for n in deps:
+            cls |= set(self.classes(n, seen, what))
         return tuple(sorted(cls))
+
+    def flag_query_classes(self, name, what, got, want):
+        """classes of a failing flag query: the findings describe what pkg-config makes of an option text (a comment starts at
+        '#', usually leaving an unbalanced quote so that the whole field reads as nothing; '${name}' inside the quotes is
+        substituted) - the include directories, library directories and library names that ARE read must be declared ones,
+        and with '${' alone they must all be there"""
+        cls = self.classes(name, what=what)
+        if not cls or got is None:
+            return ()
+        if any(set(g) - set(w) for g, w in zip(got[:3], want[:3])):
+            return ()                     # a directory or library nobody declared: not what the findings describe
+        if 'pc-option-hash' not in cls and tuple(got[:3]) != tuple(want[:3]):
+            return ()
+        return cls
 
     def resolvable(self, name, stack=()):
         """every requirement in the closure exists and accepts the version of its target"""
@@ -700,7 +722,7 @@ def check_requires(rep, P, r, p, installed, tag, replay, resolvable):
                     break
         if msg:
             bad += 1
-            rep.fail(msg, dict(replay, query=flag), classes=P.classes(r['name']))
+            rep.fail(msg, dict(replay, query=flag), classes=())        # no finding is about the Requires fields
     return bad
 
 
@@ -726,7 +748,7 @@ def check_project(rep, P, thorough):
             if rc != 0 or got != r['version']:
                 bad += 1
                 rep.fail('%s --modversion gives %r (rc %d %s), declared %r' % (tag, got, rc, err[:200], r['version']),
-                         dict(replay, query='--modversion'), classes=P.classes(r['name']))
+                         dict(replay, query='--modversion'), classes=())
             bad += check_requires(rep, P, r, p, installed, tag, replay, ok)
             rc, out, err = P.query(r['name'], installed, ['--exists', '--print-errors'])
             rep.count('sys:resolvable=%d' % ok)
@@ -734,7 +756,7 @@ def check_project(rep, P, thorough):
                 bad += 1
                 rep.fail('%s --exists %s although the declared requirements %s by the versions present (%s)' % (
                     tag, 'succeeds' if rc == 0 else 'fails', 'are met' if ok else 'are not met', err[:300]),
-                    dict(replay, query='--exists'), classes=P.classes(r['name']))
+                    dict(replay, query='--exists'), classes=())
             if not ok:
                 continue
             for what, args in (('cflags', ['--cflags']), ('libs', ['--libs']), ('static', ['--libs', '--static'])):
@@ -751,7 +773,8 @@ def check_project(rep, P, thorough):
                     rep.fail('%s: pkg-config %s gives %s; declared: include dirs %r, library dirs %r, libraries %r, options %r%s' % (
                         tag, ' '.join(args), 'rc %d %s' % (rc, err[:200]) if got is None else '; '.join(diff), want[0], want[1],
                         want[2], want[3], ''),
-                        dict(replay, query=' '.join(args), got=got, declared=[list(w) for w in want]), classes=P.classes(r['name']))
+                        dict(replay, query=' '.join(args), got=got, declared=[list(w) for w in want]),
+                        classes=P.flag_query_classes(r['name'], what, got, want))
     return bad
 
 
@@ -824,7 +847,7 @@ def run_project(rep, sc, thorough, prefix, expect_fail=None):
             return 0, rc == 0
         if rc != 0:
             rep.fail('configure fails on a project whose pkg_config() declarations are consistent:\n%s\n%s' % (bfg_text(sc), out[-800:]),
-                     dict(replay, query='configure'), classes=tuple(sorted({c for p in pkgs_of(sc) for c in classify_pkg(p)})))
+                     dict(replay, query='configure'), classes=())      # the option findings do not make configure fail
             return 1, False
         P = SysProject(sc, s.src, s.build, prefix, ext)
         bad = check_project(rep, P, thorough)
